@@ -195,6 +195,41 @@ Definition line_value (label : bytes) (ls : list bytes) : option bytes :=
   end.
 Definition zmax_list (l : list Z) : Z := fold_left Z.max l (hd 0%Z l).
 Definition zmin_list (l : list Z) : Z := fold_left Z.min l (hd 0%Z l).
+(* a printed `x.dddd` (sign, digits, point, four digits) as the integer x.dddd * 10^4 *)
+Fixpoint split_at_dot (acc s : bytes) : bytes * bytes :=
+  match s with
+  | [] => (rev acc, [])
+  | 46%N :: r => (rev acc, r)
+  | b :: r => split_at_dot (b :: acc) r
+  end.
+Definition dec4 (s : bytes) : option Z :=
+  let '(neg, u) := match s with 45%N :: r => (true, r) | _ => (false, s) end in
+  let '(ip, fp) := split_at_dot [] u in
+  match udec 0 ip, udec 0 fp with
+  | Some a, Some b => if (List.length fp =? 4)%nat && negb (List.length ip =? 0)%nat
+                      then Some ((if neg then -1 else 1) * (Z.of_N a * 10000 + Z.of_N b))%Z else None
+  | _, _ => None
+  end.
+(* Mean and StdDev of integer samples, checked in exact integer arithmetic against what is printed with four
+   decimals: |mean4 * n - S * 10^4| within rounding, and (sd4 -/+ d)^2 * n(n-1) around (n*Q - S^2) * 10^8
+   (sample standard deviation), S the sum and Q the sum of squares. The slack d covers the last printed digit,
+   a relative 2^-20 and the float64 resolution at the samples' magnitude (|S|/n * 2^-44) - far below what a
+   cancelling formula loses on samples that are large compared with their spread. *)
+Definition mean_sd_ok (nums : list Z) (mean sd : bytes) : bool :=
+  let n := Z.of_nat (List.length nums) in
+  let S := fold_left Z.add nums 0%Z in
+  let Q := fold_left (fun a x => a + x * x)%Z nums 0%Z in
+  match dec4 mean, dec4 sd with
+  | Some m4, Some s4 =>
+      let res := (Z.abs S * 10000 / (n * 2 ^ 44))%Z in
+      (Z.abs (m4 * n - S * 10000) <=? n * (2 + res))%Z &&
+      (if (n <? 2)%Z then (s4 =? 0)%Z else
+       let d := (2 + s4 / 2 ^ 20 + res)%Z in
+       let lo := Z.max 0 (s4 - d) in let hi := (s4 + d)%Z in
+       let V := ((n * Q - S * S) * 100000000)%Z in
+       (lo * lo * (n * (n - 1)) <=? V)%Z && (V <=? hi * hi * (n * (n - 1)))%Z)
+  | _, _ => false
+  end.
 Definition analyze_lines_ok (keys : list bytes) (out : bytes) : bool :=
   let nums := flat_map (fun k => if is_decimal k then match atoi k with Some z => [z] | None => [] end else []) keys in
   let all_small := forallb (fun k => implb (is_decimal k) (match atoi k with Some z => (Z.abs z <? 2 ^ 53)%Z | None => false end)) keys in
@@ -208,6 +243,10 @@ Definition analyze_lines_ok (keys : list bytes) (out : bytes) : bool :=
   | [] => true
   | _ => match line_value (of_str "Min:") ls, line_value (of_str "Max:") ls with
          | Some mn, Some mx => bytes_eqb mn (zs (zmin_list nums) ++ of_str ".0000") && bytes_eqb mx (zs (zmax_list nums) ++ of_str ".0000")
+         | _, _ => false
+         end &&
+         match line_value (of_str "Mean:") ls, line_value (of_str "StdDev:") ls with
+         | Some mean, Some sd => mean_sd_ok nums mean sd
          | _, _ => false
          end
   end.
